@@ -193,6 +193,7 @@ class Text(JupyterMixin):
                     if end > offset >= start
                 ],
                 end="",
+                tab_size=self.tab_size,
             )
             return text
 
@@ -947,6 +948,7 @@ class Text(JupyterMixin):
                 style=style,
                 justify=justify,
                 overflow=overflow,
+                tab_size=self.tab_size,
             )
             for start, end in line_ranges
         )
